@@ -26,6 +26,23 @@ func InstallOrder(salt uint64) {
 	}
 }
 
+// OrderFunc returns the permutation function for a salt (nil for salt 0 = keep sorted).
+func OrderFunc(salt uint64) func(site int, keys []string) {
+	if salt == 0 {
+		return nil
+	}
+	return func(site int, keys []string) {
+		sort.SliceStable(keys, func(i, j int) bool {
+			hi := Mix(Mix(salt, uint64(site)), HashString(keys[i]))
+			hj := Mix(Mix(salt, uint64(site)), HashString(keys[j]))
+			if hi != hj {
+				return hi < hj
+			}
+			return keys[i] < keys[j]
+		})
+	}
+}
+
 // DrawOrder draws the per-run order salt from the tape and installs it.
 func DrawOrder(t *Tape) uint64 {
 	salt := uint64(t.Choose(1<<16, "map-order-salt"))
